@@ -4,7 +4,7 @@ import ChythonModel.Proofs.C12Perm
 /-!
 # C07 — the sign-translation facts the stereo post-filter rests on
 
-Verbatim copies of `translateTetra_perm4`, `translateTetra_take3`, `translateTetra_explicitH`, `translateTetra_implicitH`, `IsSlot`,
+Verbatim copies of `translateTetra_perm4`, `translateTetra_take3`, `translateTetra_explicitH`, `translateTetra_implicitH`, `translateTetra_change_iff_odd`, `IsSlot`,
 `EndsWF`, `translateEnds_slots` of `Props/C12.lean` (property C12 owns the sign algebra), repeated here so that building C07 does not
 depend on another property's Props file.  They are statements about `Model/Stereo.lean`, which C07's driver links.
 -/
@@ -66,6 +66,21 @@ theorem translateTetra_implicitH (a b c : Nat) (hnd : [a, b, c].Nodup) (env : Li
     simp [translateTetra, pickSign, tetraOrder, tetraLookup, index?, relOdd, bind, Except.bind, pure, Except.pure,
       getKey, pos, hab, hac, hbc, hba, hca, hcb] <;>
     cases s <;> decide
+
+/-- **the configuration reported changes exactly under odd permutations**: for two arrangements of the same four
+neighbours the translated signs differ iff the second is an odd permutation of the first -/
+theorem translateTetra_change_iff_odd (a b c d : Nat) (hnd : [a, b, c, d].Nodup) (e1 e2 : List Nat)
+    (h1 : e1.Perm [a, b, c, d]) (h2 : e2.Perm [a, b, c, d]) (isH : Nat → Bool) (st : Option Bool) (s : Bool) :
+    ∃ r1 r2, translateTetra [a, b, c, d] e1 isH st (some s) = .ok r1 ∧
+             translateTetra [a, b, c, d] e2 isH st (some s) = .ok r2 ∧ ((r1 != r2) = relOdd e1 e2) := by
+  refine ⟨_, _, translateTetra_perm4 a b c d hnd e1 h1 isH st s, translateTetra_perm4 a b c d hnd e2 h2 isH st s, ?_⟩
+  have m1 := idx_mem_allPerms4 hnd h1
+  have m2 := idx_mem_allPerms4 hnd h2
+  have hc := oddPerm_comp _ m1 _ m2
+  have hi := idx_comp [a, b, c, d] e1 e2 (fun x hx => h1.subset hx) (fun x hx => h2.subset hx)
+  unfold relOdd at *
+  rw [hi, ← hc]
+  cases s <;> cases oddPerm (List.map (pos [a, b, c, d]) e1) <;> cases oddPerm (List.map (pos [a, b, c, d]) e2) <;> rfl
 
 /-- `x` occupies slot `k` of the environment `(n0, n1, n2, n3)`; a `None` slot is occupied by any hydrogen -/
 def IsSlot (e : Ends) (isH : Nat → Bool) : Nat → Nat → Prop
